@@ -187,3 +187,8 @@ var _ utils.PriorityQueue
 //@ assume
 //@ pure
 //@ modifies nothing
+
+//@ func (*index.Hnsw).Search
+//@ props C01 C09
+//@ safety C01 C12
+//@ modifies cells[utils.minPriorityQueue], cells[utils.maxPriorityQueue], mem[*utils.PriorityQueueItem]
